@@ -17,9 +17,10 @@ from .common import NCPU, REPO, TARGET, VERIF, WORK, MachineryError, cargo_env, 
 
 
 class Prog:
-    __slots__ = ("id", "ref", "mac", "rows", "cmp", "pre", "meta")
+    __slots__ = ("id", "ref", "mac", "rows", "cmp", "pre", "meta", "sub")
 
-    def __init__(self, id, ref, mac, rows, cmp="Full", pre="", meta=None):
+    def __init__(self, id, ref, mac, rows, cmp="Full", pre="", meta=None, sub=()):
+        self.sub = list(sub)  # input slots over whose subsets (set to 1) every row is additionally expanded
         self.id = id
         self.ref = ref  # body of fn r() -> String
         self.mac = mac  # body of fn m() -> String
@@ -69,8 +70,8 @@ def render_shard(progs, extra_header=""):
     lines.append("    vrt::drive(&[")
     for i, p in enumerate(progs):
         lines.append(
-            "        Prog { id: %s, r: p%d::r, m: p%d::m, rows: p%d::ROWS, cmp: Cmp::%s },"
-            % (json.dumps(p.id), i, i, i, p.cmp)
+            "        Prog { id: %s, r: p%d::r, m: p%d::m, rows: p%d::ROWS, sub: &[%s], cmp: Cmp::%s },"
+            % (json.dumps(p.id), i, i, i, ", ".join(str(x) for x in p.sub), p.cmp)
         )
     lines.append("    ]);")
     lines.append("}")
